@@ -1117,6 +1117,14 @@ def chk_sharing():
 # --------------------------------------------------------------------------- C11: pickling
 
 
+# a user module-level global whose name also exists in histogrammar.util's own globals
+absoluteTolerance = 2.5
+
+
+def _q_user_global(d):
+    return d["x"] * absoluteTolerance
+
+
 def chk_pickle():
     import pickle
 
@@ -1130,6 +1138,7 @@ def chk_pickle():
         "lambda": lambda d: d["x"],
         "lambda-default": (lambda d, k="x": d[k]),
         "def": q_def,
+        "def-user-global": _q_user_global,
         "string": "x",
         "named": named("nx", lambda d: d["x"]),
         "cached": cached(lambda d: d["x"]),
@@ -1137,7 +1146,8 @@ def chk_pickle():
     }
     rows = [{"x": 0.5, "y": 1.0}, {"x": 2.5, "y": -1.0}, {"x": NAN, "y": 0.0}, {"x": INF, "y": 2.0}]
     more = [{"x": 1.5, "y": 1.0}, {"x": -3.0, "y": 0.5}]
-    cols = {"x": np.array([0.25, 1.75, NAN, 2.0]), "y": np.array([1.0, 2.0, 3.0, 4.0])}
+    # 0.5 and 1.75 are the boundaries between the CentrallyBin centres used below
+    cols = {"x": np.array([0.5, 1.75, NAN, 2.0]), "y": np.array([1.0, 2.0, 3.0, 4.0])}
 
     def trees(q):
         yield "Sum", lambda: hg.Sum(q)
@@ -1152,6 +1162,8 @@ def chk_pickle():
         yield "Fraction", lambda: hg.Fraction(q, hg.Count())
         yield "Label", lambda: hg.Label(a=hg.Sum(q), b=hg.Sum(q))
         yield "Branch", lambda: hg.Branch(hg.Count(), hg.Bin(2, 0, 2, q))
+        yield "Branch-count-last", lambda: hg.Branch(hg.Sum(q), hg.Count())
+        yield "Bin-of-CentrallyBin", lambda: hg.Bin(2, 0.0, 3.0, q, hg.CentrallyBin([0.0, 1.0, 2.5], q))
 
     for qn, q in quantities.items():
         for tn, mk in trees(q):
@@ -1177,8 +1189,9 @@ def chk_pickle():
                 for who, obj in (("original", h), ("clone", c)):
                     try:
                         fill_all(obj, more)
-                        if qn not in ("cached", "named-cached-string") or True:
-                            obj.fill.numpy(cols)
+                        obj.fill.numpy(cols)
+                        obj.fill.numpy(cols, 0.5)
+                        obj.fill.numpy(cols, np.array([1.0, 0.0, 2.0, 0.5]))
                     except Exception as e:
                         return f"{tn}[{qn}] {state}: filling the {who} after the round trip raised {e!r}"
                 if not approx_eq(h.toJson(), c.toJson()):
@@ -1236,8 +1249,12 @@ def chk_numpy(K, skip=(), only_kids=None, exclude_kids=()):
     def qcn(d):
         return d["c"]
 
+    def wtr(w):
+        return 2 * w
+
     kids = {
         "Count": lambda: hg.Count(),
+        "CountT": lambda: hg.Count(wtr),
         "Sum": lambda: hg.Sum(qyn),
         "Average": lambda: hg.Average(qyn),
         "Deviate": lambda: hg.Deviate(qyn),
@@ -1278,9 +1295,9 @@ def chk_numpy(K, skip=(), only_kids=None, exclude_kids=()):
     weights_variants = ["one", "scalar", "array"]
     if K == "Count":
         return None  # a bare Count has no quantity: outside the property (no fill.numpy entry point)
-    child_kinds_ = ["Count"] if K in LEAVES else ["Count", "Sum", "Average", "Deviate", "Minimize", "Bin2"]
+    child_kinds_ = ["Count"] if K in LEAVES else ["Count", "CountT", "Sum", "Average", "Deviate", "Minimize", "Bin2"]
     if K in ("Label", "Index"):
-        child_kinds_ = child_kinds_[1:]  # all-Count collections have no quantity-bearing node
+        child_kinds_ = child_kinds_[2:]  # all-Count collections have no quantity-bearing node
     if only_kids is not None:
         child_kinds_ = [c for c in child_kinds_ if c in only_kids]
     child_kinds_ = [c for c in child_kinds_ if c not in exclude_kids]
